@@ -407,6 +407,16 @@ def resolver_rules(facts, rep, w, rule="R09.3"):
                             n += 1
                             rep.ob(rule, b.id, "resolver: hidden path reported as FileNotFound", st.rv.agg["variant"] == "FileNotFound",
                                    st.rv.agg["variant"], st.line)
+                        else:
+                            # every other refusal of the resolver says "no layer has it": it is made where a layer lookup came back
+                            # false — not because of how the path is spelled (a component that looks like the bookkeeping directory
+                            # deeper in the tree is an ordinary name)
+                            missed = any(g[0] == "bool" and g[2] is False and peel(g[1])[0] == "call" and sname(peel(g[1])[1]) == "exists" and
+                                         peel(g[1])[2] and ov.origin_class(peel(g[1])[2][0]) & {"upper", "anylayer"} for g in gs)
+                            n += 1
+                            rep.ob(rule, b.id, "resolver: not-found only where the marker or the layers say so", missed, "" if missed else
+                                   "the resolver answers %s on a path where neither the deletion marker nor a failed layer lookup is known: "
+                                   "entries are hidden because of their name" % st.rv.agg["variant"], st.line)
             # every Ok return of a layer path is guarded by that path's exists()
             for ct, gs0, bb in ov.inter.ret_cases(b):
                 if ov.inter.case_polarity(ct) == "err" or cb is not ov.inter.code_body(b):
@@ -812,6 +822,20 @@ def run(facts, rep, tier, ctx):
     from . import c10
     n = c10.marker_rules(facts, rep, ws, prefix="R09.5")
     rep.floor("marker protocol obligations (shared with C10)", n, 20)
+    # R09.10 the union's answers are the layers' answers: no Err edge inside an overlay operation ends in a success return (a layer that
+    # fails to answer is an error, not "absent" — `exists` answering Ok(false) lets create_dir shadow a lower-layer file), and what
+    # metadata / open_file report goes through the marker-aware resolver whatever the write layer holds (C20 R20.1/R20.4, C04 R04.4o)
+    from . import c20 as _c20e, c04 as _c04o
+    from ..report import Report as _Rp9
+    for w10 in (ws, World(facts, True)):
+        if not w10.present():
+            continue
+        scr10 = _Rp9("e")
+        _c20e.run_world(facts, scr10, w10, {"results": 0, "err_edges": 0, "kind_arms": 0})
+        for o in scr10.obligations:
+            if o["rule"] in ("R20.1", "R20.4") and (o["fn"].startswith("<" + w10.overlay) or o["fn"].startswith(w10.overlay + "::")):
+                rep.ob(("A/" if w10.asyncw else "") + "R09.10", o["fn"], o["key"].split("|")[2], o["ok"], o["detail"], o["loc"])
+        _c04o.overlay_read_delegation(facts, rep if not w10.asyncw else c10._Prefixed(rep, "A"), w10, "R09.10o")
     # the union is over the layers the caller gave, resolved at each call: a constructor that filters or re-orders them (keeps only
     # the layers that exist at construction time) drops what such a layer holds later from the union (shared with C08 R08.8)
     from . import c08 as _c08
